@@ -33,8 +33,29 @@ def buildint_harness():
     rx = P + r'buildInt\('
     shapes = [dict(BUILDINT=core.csym(FAM, rx), BASE=b, SUF=s, _tag='base=%d,suffix_len=%d' % (b, s), _witness=('witness: literal built',) + (() if b == 10 and s == 0 else ('witness: value above',)))
               for b in (2, 8, 10, 16) for s in (0, 1, 2, 3)]
+    def replay(inp, shape, failed):
+        # the literal the counterexample stands for, evaluated by the REAL interpreter: type (by its registered name) and value against the C++ [lex.icon] table
+        try:
+            V = int(inp['V']['hex'], 16); base = shape['BASE']; suf = shape['SUF']
+            npre = 2 if base in (16, 2) else 0
+            sfx = ''.join(chr(int(inp['text[%dl]' % (npre + 2 + i)]['hex'], 16)) for i in range(suf))
+        except Exception as e: return None, 'inputs missing from trace: %s (%s)' % (sorted(inp), e)
+        lit = {10: str(V), 16: '0x%x' % V, 2: '0b' + bin(V)[2:], 8: '0%o' % V}[base] + sfx
+        uns = 'u' in sfx.lower(); nl = sfx.lower().count('l'); dec = base == 10
+        fits = {'int': V <= 0x7fffffff, 'uint32_t': V <= 0xffffffff, 'int64_t': V <= 0x7fffffffffffffff, 'size_t': True, 'long_long': V <= 0x7fffffffffffffff, 'unsigned_long_long': True}
+        if not uns: seq = {0: ['int', 'int64_t', 'long_long'] if dec else ['int', 'uint32_t', 'int64_t', 'size_t', 'long_long', 'unsigned_long_long'], 1: ['int64_t', 'long_long'] if dec else ['int64_t', 'size_t', 'long_long', 'unsigned_long_long'],
+                           2: ['long_long'] if dec else ['long_long', 'unsigned_long_long']}[nl]
+        else: seq = {0: ['uint32_t', 'size_t', 'unsigned_long_long'], 1: ['size_t', 'unsigned_long_long'], 2: ['unsigned_long_long']}[nl]
+        want = next((t for t in seq if fits[t]), None)
+        from props import C17
+        import tempfile, os
+        with tempfile.NamedTemporaryFile('w', suffix='.chai', delete=False) as f: f.write('print(type_name(%s)); print(to_string(%s));\n' % (lit, lit))
+        r = core.run([C17.interpreter(), f.name], timeout=60); os.unlink(f.name)
+        out = r.stdout.split()
+        ok = len(out) == 2 and out[0] == want and out[1] == str(V)
+        return (False if ok else True), 'literal %s -> real interpreter: %s; C++: type %s value %d' % (lit, ' '.join(out) or r.stdout[:80], want, V)
     return Harness('I1.buildInt', FAM, [rx], 'c16_buildint.c', stubs=[r'^std::__cxx11::sto(ll|ull)\(', r'chaiscript::const_var'], shapes=shapes,
-                   opts=['--unwind', '10'], timeout=300, mem_gb=6, string_model=True, inputs=['V', 'text'],
+                   opts=['--unwind', '10'], timeout=300, mem_gb=6, string_model=True, inputs=['V', 'text'], replay=replay,
                    note='all 64-bit values V, every valid suffix spelling (case variants), 4 bases')
 
 WORDS = ['true', 'false', 'Infinity', 'NaN', '__LINE__', '__FILE__', '__FUNC__', '__CLASS__', '_']
